@@ -38,8 +38,12 @@ Ltac brk_step :=
     | _ => destruct x eqn:?
     end
   end.
-Ltac nrm := cbv beta iota zeta.
-Ltac brk := nrm; repeat (brk_step; nrm); try reflexivity.
+(* boolean connectives are unfolded, so that the case analysis is on the atomic comparisons and the
+   proofs do not depend on how a condition is spelled (a != X and b != Y  /  not (a == X or b == Y)) *)
+Ltac nrm := cbv beta iota zeta delta [negb andb orb].
+Ltac brk := nrm; repeat (brk_step; nrm); try reflexivity; try congruence.
+(* the same, closing a goal with [t] (an induction hypothesis) as soon as it applies *)
+Ltac brk_with t := nrm; repeat (first [solve [t] | brk_step]; nrm); try reflexivity; try congruence.
 Ltac unm := unfold fv, iv, nextp in *; unfold bind, lift, ret, rbind, rmap, with_fuel, bindMS, bindSS, retS, failS in *.
 
 Section Agree.
@@ -382,10 +386,8 @@ Proof.
   induction fuel as [|f IH]; intros us h sv s H; [lia|].
   destruct us as [|u1 [|u2 r]]; cbn [gen_DistNormal__next_gaussian_loop1 polar_loop]; unc; unm; cbn [next]; nrm;
     try reflexivity.
-  cbn [negb andb].
-  destruct (leb N (ofZ N 1) _ || eqb N _ (ofZ N 0)).
-  - apply IH. simpl in H. lia.
-  - brk.
+  assert (L : (length r < f)%nat) by (simpl in H; lia).
+  brk_with ltac:(apply IH; exact L).
 Qed.
 
 Theorem gen_DistNormal__next_gaussian_eq : forall h sv us,
